@@ -94,8 +94,10 @@ def build(i, d, caps):
     if k == "undecodable":
         b = bytearray(base)
         cat = refb.MODELS[code][1]
-        how = d.get("how", 0) % 3
-        if how == 0 or cat == "POWER_PLUG":
+        how = d.get("how", 0) % 4
+        if how == 3:
+            b[42:74] = b"n" * 31 + b"\xd7"                      # name field ends in the middle of a two-byte character
+        elif how == 0 or cat == "POWER_PLUG":
             b[42:46] = b"\xff\xfe\xfd\xfc"                      # name is not UTF-8
         elif cat == "WATER_HEATER":
             b[133] = 1
@@ -132,6 +134,19 @@ async def run_history(case):
             else:
                 data, label, tag = build(i, d, caps)
             built.append((data, label, tag))
+            if case.get("rival_at") is not None and i == case["rival_at"] % len(case["dgrams"]):
+                # a second bridge object that shares a port with this one tries to start (and fails): no business of ours
+                from aioswitcher.bridge import SwitcherBridge
+                rival = SwitcherBridge(lambda dev_: None, [net.udp_ports(8)[7], rig.ports[-1]])
+                try:
+                    await rival.start()
+                except OSError:
+                    pass
+                finally:
+                    try:
+                        await rival.stop()
+                    except Exception:
+                        pass
             pi = d.get("port", 0) % nports
             sent.append((pi, label, tag, d["kind"]))
             await rig.send(rig.ports[pi], data)
@@ -160,7 +175,8 @@ def body(rep, case, sub="histories"):
         else:
             bad_seen.add(pi)
     labels = sorted({f"has-{k}" for _, _, _, k in sent}) + [f"ports={case['ports']}"] + (["callback-raises"] if raise_on else []) + (
-        ["after-restart"] if case.get("restarts") else []) + [f"callback={case.get('callback', 'bound-method')}"]
+        ["after-restart"] if case.get("restarts") else []) + [f"callback={case.get('callback', 'bound-method')}"] + (
+        ["rival-bridge-mid-history"] if case.get("rival_at") is not None else [])
     rep.tick(sub, key=[(pi, label, kind) for pi, label, tag, kind in sent] + [sorted(raise_on)], nontrivial=nt, sample=case, labels=labels)
     ports_of = {}
     for pi, label, tag, kind in sent:
@@ -228,7 +244,7 @@ def dgram(nports):
         st.builds(lambda p, f, c: {"kind": "extended", "port": p, "family": f, "cut": c}, port, fam, st.integers(0, 4)),
         st.builds(lambda p, f, b, s: {"kind": "flipped", "port": p, "family": f, "bit": b, "seed": s}, port, fam, st.integers(0, 1343), seed),
         st.builds(lambda p, f, c: {"kind": "unknown", "port": p, "family": f, "code": c}, port, fam, st.integers(0, 65535)),
-        st.builds(lambda p, f, h, s: {"kind": "undecodable", "port": p, "family": f, "how": h, "seed": s}, port, fam, st.integers(0, 2), seed),
+        st.builds(lambda p, f, h, s: {"kind": "undecodable", "port": p, "family": f, "how": h, "seed": s}, port, fam, st.integers(0, 3), seed),
         st.builds(lambda p, f, o: {"kind": "repeat", "port": p, "family": f, "of": o}, port, fam, st.integers(0, 59)),
         st.builds(lambda p, f: {"kind": "repeat", "port": p, "family": f, "of": -1}, port, fam),
     )
@@ -236,11 +252,12 @@ def dgram(nports):
 
 def strat(nports):
     return lambda: st.builds(
-        lambda ds, ro, rs, cb: dict({"ports": nports, "dgrams": ds, "raise_on": sorted(set(ro))}, **({"restarts": rs} if rs else {}),
-                                    **({"callback": cb} if cb != "bound-method" else {})),
+        lambda ds, ro, rs, cb, rv: dict({"ports": nports, "dgrams": ds, "raise_on": sorted(set(ro))}, **({"restarts": rs} if rs else {}),
+                                        **({"callback": cb} if cb != "bound-method" else {}), **({"rival_at": rv} if rv is not None else {})),
         st.one_of(st.lists(dgram(nports), min_size=1, max_size=60), st.lists(dgram(nports), min_size=12, max_size=60)),
         st.one_of(st.just([]), st.lists(st.integers(0, 30), max_size=6)), st.sampled_from([0, 0, 0, 0, 1, 2]),
-        st.sampled_from(["bound-method", "bound-method", "function", "partial", "unreferenced-owner", "falsy-callable"]))
+        st.sampled_from(["bound-method", "bound-method", "function", "partial", "unreferenced-owner", "falsy-callable"]),
+        st.one_of(st.none(), st.none(), st.integers(0, 59)))
 
 
 def subchecks(tier):
